@@ -465,7 +465,34 @@ func c01Placements(s leafSpec, v string) []*gen.Project {
 	return out
 }
 
+// c01ContainerUnderOr holds the pinned witnesses of a recorded finding: the rules of an `or` alternative are not applied
+// to an example that is a container (the kinds are compared, minItems / maxItems are not). Scalars under the same
+// rule are judged by the grid.
+func c01ContainerUnderOr(r *mon.Run) {
+	for _, w := range []struct{ text, why string }{
+		{`[] // {or: [{type: "array", minItems: 1}, "string"]}`, "the empty array has fewer than 1 item and is no string"},
+	} {
+		r.Eval(1)
+		var err error
+		if p := mon.Guard(func() {
+			sch, berr := (project{Root: w.text}).build()
+			if err = berr; err == nil {
+				err = sch.Check()
+			}
+		}); p != nil {
+			r.Violate("panic", "container under or/"+p.Site, "panic: "+p.Value, map[string]any{"text": w.text})
+			continue
+		}
+		if err == nil {
+			r.Violate("accepted-violating", "an array example under an or alternative with minItems", fmt.Sprintf("Check() accepts %s although %s", w.text, w.why), map[string]any{"text": w.text})
+		}
+	}
+}
+
 func c01Run(r *mon.Run) {
+	if r.Shard == 0 {
+		c01ContainerUnderOr(r)
+	}
 	// (1) the grid, enumerated completely
 	c01Acyclic = true
 	idx := 0
